@@ -201,6 +201,48 @@ def check(run: Run) -> None:
         roles = [Role("MP", "n", r"layout_for\(context\)\.min_period"), Role("SZ", "n", r"window_size\(context,memory\)")]
         R.k1(run, "C05.e", fa, roles, lambda v: Expect(ret=v.ge("SZ", "MP")), what="size_all_valid")
 
+    with run.obligation("C05.e2", "K6+K4", "window ring buffer: logical accessors go through physical_index = (head + i) % capacity, and code that "
+                        "re-bases the ring (head := 0 after copying) reads the old elements through the logical accessors only"):
+        fa = R.fn(run, WIN, "physical_index")
+        cn = R.aliases_of(fa)
+        rets = [cn(r.e) for r in R.find(fa, lambda n: isinstance(n, C.Return))]
+        run.count(1, "C05.e2.physical")
+        core = rets[-1].replace(" ", "") if rets else ""
+        core = re.sub(r"^\(capacity_==0\)\?0:\((.*)\)$", r"\1", core)
+        if core not in ("(head_+logical)%capacity_", "(logical+head_)%capacity_"):
+            run.finding("C05.e2", "physical_index", f"physical_index must be (head_ + logical) % capacity_: {rets}", loc=WIN)
+        n = 0
+        for nm, raw in (("element_at", "value_slot"), ("time_element_at", "time_slot"), ("time_at", "time_at_physical")):
+            for fd in t.funcs(WIN, nm):
+                fa = R.parse(run, fd)
+                cn = R.aliases_of(fa)
+                rets = [cn(r.e) for r in R.find(fa, lambda x: isinstance(x, C.Return))]
+                n += 1
+                run.count(1)
+                if not rets or rets[-1] != f"{raw}(physical_index(index))":
+                    run.finding("C05.e2", f"{nm}:logical", f"{nm} must read {raw}(physical_index(index)), reads {rets}", loc=f"{WIN}:{fd.line}")
+        run.sites(n, 3, "logical accessors")
+        n = 0
+        for fd in t.file(WIN).funcs:
+            body = t.file(WIN).text(fd.body[0], fd.body[1])
+            if "head_ = 0" not in body:
+                continue
+            fa = R.parse(run, fd, strict=False)
+            cn = R.aliases_of(fa)
+            copies = [c for c in R.calls(fa) if R.callee_name(c) in ("copy_construct", "copy_construct_slot", "move_construct", "move_construct_slot")]
+            if not copies:
+                continue
+            n += 1
+            run.count(1)
+            for c in copies:
+                for a in c.args:
+                    for x in a.walk():
+                        if isinstance(x, C.Call) and R.callee_name(x) in ("value_slot", "time_slot", "time_at_physical"):
+                            run.finding("C05.e2", f"{fd.name}:physical-read-while-rebasing",
+                                        f"{fd.name} re-bases the ring (head_ = 0) but copies old elements by PHYSICAL slot ({cn(x)}): the window's order "
+                                        f"is scrambled whenever the ring had wrapped", loc=fa.loc(x))
+        run.sites(n, 2, "re-basing copy functions")
+
     with run.obligation("C05.f", "K5", "delta accessors / mutators in the TSData ops tables are wired to functions of the same polarity"):
         total = 0
         for rel in OPS_FILES:
@@ -231,5 +273,7 @@ VARIANTS = [
     {"id": "d-mask-on-duplicate-insert", "expect": "C05.d", "edits": [{"file": SLOT, "find": "                const auto result = keys_.insert(key);\n                ensure_delta_capacity();\n                if (!result.inserted) { return {.slot = result.slot, .changed = false}; }\n\n                if (slot_removed(result.slot)) { removed_.reset(result.slot); }\n                else { added_.set(result.slot); }", "replace": "                const auto result = keys_.insert(key);\n                ensure_delta_capacity();\n\n                if (slot_removed(result.slot)) { removed_.reset(result.slot); }\n                else { added_.set(result.slot); }\n                if (!result.inserted) { return {.slot = result.slot, .changed = false}; }"}]},
     {"id": "e-window-off-by-one", "expect": "C05.e", "edits": [{"file": WIN, "find": "if (size() < period_) { append(source, modified_time); }", "replace": "if (size() <= period_) { append(source, modified_time); }"}]},
     {"id": "e-evicted-after-overwrite", "expect": "C05.e", "edits": [{"file": WIN, "find": "                record_evicted(value_slot(physical), modified_time);\n                copy_assign_value_slot(physical, source.data());", "replace": "                copy_assign_value_slot(physical, source.data());\n                record_evicted(value_slot(physical), modified_time);"}]},
+    {"id": "e2-grow-physical-copy", "expect": "C05.e2", "edits": [{"file": WIN, "find": "value_plan.copy_construct(new_value_bytes + index * new_value_stride, element_at(index));", "replace": "value_plan.copy_construct(new_value_bytes + index * new_value_stride, value_slot(index));"}]},
+    {"id": "e2-physical-index-no-head", "expect": "C05.e2", "edits": [{"file": WIN, "find": "return time_slot(physical_index(index));", "replace": "return time_slot(index % capacity_);"}]},
     {"id": "a-twin-if-else-swapped", "expect": None, "edits": [{"file": SLOT, "find": "                if (slot_added(slot)) { added_.reset(slot); }\n                else { removed_.set(slot); }\n                return mutation_result(slot);\n            }\n\n            [[nodiscard]] SlotTSDataMutationResult remove_slot", "replace": "                if (slot_added(slot)) { added_.reset(slot); } else { removed_.set(slot); }\n                return mutation_result(slot);\n            }\n\n            [[nodiscard]] SlotTSDataMutationResult remove_slot"}]},
 ]
